@@ -18,6 +18,8 @@
    tracked in the variable `drift` and never blocks a step: a history that satisfies the property but left the
    detailed model finishes with progress 1000 (reported as MODEL-DRIFT by the driver, not as a violation). *)
 EXTENDS ConfusionNet, TraceKit
+CONSTANT KnownEmptyFirst    \* TRUE: the open known finding is modelled as a named deviation (TAddAfterEmpty), so that the REST of
+                            \* such a history (later additions, normalisation, paths) is still checked
 VARIABLES tid, drift
 
 Tr == Traces[tid]
@@ -56,6 +58,19 @@ TAdd ==
           /\ adds' = j /\ total' = total + w /\ lastH' = h /\ lastW' = w
     /\ UNCHANGED <<phase, paths>>
 
+\* the known deviation (add:first-hypothesis-empty): every hypothesis so far was '' and left no trace, the network is still empty;
+\* add_hypothese then starts afresh from this hypothesis - the weight of the dropped ones is gone (total restarts)
+TAddAfterEmpty ==
+    /\ KnownEmptyFirst /\ phase = "open" /\ adds < NAdds /\ adds >= 1 /\ cn = <<>>
+    /\ LET j == adds + 1
+           h == HypOf(j)
+           w == ScoreM(j)
+       IN /\ Tr.outcome[j] = "ok"
+          /\ WellFormed(Tr.nets[j])
+          /\ NetOf(Tr.nets[j]) = [k \in 1..Len(h) |-> (h[k] :> w)]
+          /\ cn' = NetOf(Tr.nets[j])
+          /\ adds' = j /\ total' = (IF h = <<>> THEN 0 ELSE w) /\ lastH' = h /\ lastW' = w
+    /\ UNCHANGED <<phase, paths, drift>>
 \* ---------------------------------------------------------------- normalisation
 Abs(x) == IF x < 0 THEN -x ELSE x
 NormOK ==
@@ -103,7 +118,7 @@ TFinish ==
        \/ phase = "norm" /\ PathsOK /\ phase' = "paths" /\ drift' = (drift \/ ~BestOK)
        \/ phase = "paths" /\ SingleOK /\ phase' = "done" /\ UNCHANGED drift
 
-TNext == UNCHANGED tid /\ (TAdd \/ TFinish)
+TNext == UNCHANGED tid /\ (TAdd \/ TAddAfterEmpty \/ TFinish)
 
 PhaseNo == CASE phase = "open" -> 0 [] phase = "norm" -> 1 [] phase = "paths" -> 2 [] OTHER -> 3
 \* progress: 10 * accepted additions + finished final stages; 1000 = property satisfied, detailed model left (drift)
